@@ -60,6 +60,13 @@ def dec_tag(t: Any) -> Any:
     return CommTag(int(v))
 
 
+def canon_tag(t: Any) -> str:
+    """Process-independent text of a tag (repr of a frozenset follows the hash seed)."""
+    if isinstance(t, frozenset):
+        return "frozenset{" + ",".join(sorted(repr(x) for x in t)) + "}"
+    return repr(t)
+
+
 UNARY = ["neg", "rev", "roll", "double", "square"]
 BINARY = ["add", "sub", "mul"]
 
